@@ -203,6 +203,30 @@ def opt_run(prop, specs, tag, coqeval=0):
     return res
 
 
+LIBM_EXPECT = ["0000000000000000", "7ff0000000000000", "nan", "3ff0000000000000", "3ff0000000000000",
+               "3ff0000000000000", "3ff0000000000000", "0000000000000000", "7ff0000000000000", "0000000000000000",
+               "0000000000000000", "400921fb54442d18", "0000000000000000", "3ff0000000000000"]
+LIBM_NAMES = ["exp(-inf)", "exp(+inf)", "exp(NaN)", "exp(0)", "exp(-0)", "min(NaN,1)", "min(inf,1)", "max(0,NaN)", "pow(inf,0.5)",
+              "pow(0,0.5)", "acos(1)", "acos(-1)", "sin(0)", "cos(0)"]
+
+
+def libm_premises():
+    """the facts about the platform's math library that theorems take as hypotheses (exp(-inf) = 0, ...), on both
+    sides of the correspondence: Rust's std through the harness, OCaml's runtime through the driver"""
+    problems = []
+    for who, cmd in (("implementation side (Rust std)", [HARNESS, "libm"]), ("model side (OCaml runtime)", [DRIVER, "libm"])):
+        rc, out = sh(cmd, timeout=60)
+        toks = out.strip().split("\n")[-1].split() if rc == 0 else []
+        if len(toks) != len(LIBM_EXPECT):
+            problems.append("%s: could not read the math-library probes" % who)
+            continue
+        for name, got, want in zip(LIBM_NAMES, toks, LIBM_EXPECT):
+            isnan = got.lower()[:3] in ("7ff", "fff") and got.lower() not in ("7ff0000000000000", "fff0000000000000")
+            if (want == "nan" and not isnan) or (want != "nan" and got.lower() != want):
+                problems.append("%s: %s = %s, the theorems assume %s" % (who, name, got, want))
+    return problems
+
+
 def opt_engine(prop, conf, params, tier, seed, broken_gate):
     focus = params["focus"]
     count = params[tier]
@@ -210,6 +234,8 @@ def opt_engine(prop, conf, params, tier, seed, broken_gate):
     rc, out = sh([HARNESS, "opt-gen", "--focus", focus, "--seed", str(seed), "--count", str(count)], timeout=600)
     specs = corpus + [l for l in out.split("\n") if l.startswith("opt ")]
     r = opt_run(prop, specs, "main", coqeval=params.get("coqeval_" + tier, 0))
+    for pr in libm_premises():
+        r["mismatches"].append(dict(engine="opt", case="(math library premises)", what=pr))
     searched = len(specs)
     relevant = [f for f in r["findings"] if prop in f["properties"]]
     if (r["mismatches"] or broken_gate) and not relevant:
